@@ -34,8 +34,6 @@ TEXTS = {
         'what': 'a rejected add_child (ValueError / AnotherChosenChild raised after the child was attached to its leaf, or a forward add beyond maxOccurs) leaves a ghost child in the schema-ordered view'},
     ('C06', 'ordered-view-lost'): {'site': REMOVE_FLAGS + '; DuplicationXSDSequence pruning in remove(); _check_choices_intelligently re-homing',
         'what': 'children disappear from the schema-ordered view after removal from a duplicated particle or after intelligent-choice re-homing (harmony, interchangeable, metronome, note tie/tie/grace, ...)'},
-    ('C06', 'removed-still-parented'): {'site': 'XMLElement.replace_child: `old._parent = None` is executed on the predicate function when old is a callable',
-        'what': 'a child replaced through replace_child(predicate, new) still reports the element as its parent'},
     ('C06', 'output-count-differs'): {'site': MATCHER_GHOST + '; ' + REMOVE_FLAGS,
         'what': 'serialised output has a child more or less than were added minus removed (ghost or lost child)'},
     ('C06', 'insertion-view-differs'): {'site': 'XMLElement.remove / replace_child update _unordered_children before the matcher may raise',
@@ -77,8 +75,8 @@ TEXTS = {
     # ---------------- C14
     ('C14', 'copy-raised'): {'site': 'XMLElement.__deepcopy__ re-adds the children through add_child in get_children() order; the matcher rejects its own arrangement (' + CHOICE + ')',
         'what': 'copy.deepcopy() of an element the library accepted raises a matcher exception'},
-    ('C14', 'copy-differs'): {'site': 'XMLElement.__deepcopy__ re-adds children through the matcher: ghost / lost children of the source are dropped or regrouped',
-        'what': 'the copy serialises differently from the original because the source tree held a ghost or re-homed child'},
+    ('C14', 'copy-differs'): {'site': 'XMLElement.__deepcopy__ rebuilds the copy through add_child: the source\'s matcher state (spurious / missing requirements after removals, ghost or re-homed children) is not reproduced',
+        'what': 'the copy serialises where the original reports required children (or vice versa), or without the source\'s ghost child'},
     ('C14', 'copy-not-independent'): {'site': 'XMLElement.__deepcopy__',
         'what': 'copy lineage run alone differs from the interleaved run'},
     ('C14', 'original-changed-by-copy'): {'site': 'XMLElement.__deepcopy__ calls get_children()/add_child on shared state',
@@ -102,8 +100,6 @@ TEXTS = {
     ('C16', 'repeat-differs[ic]'): {'site': 'XMLChildContainer._check_choices_intelligently',
         'what': 'two consecutive to_string(intelligent_choice=True) calls return different results'},
     # ---------------- C19
-    ('C19', 'stdout'): {'site': 'XMLChildContainer._check_choices_intelligently: leftover debugging print',
-        'what': 'the intelligent-choice path prints to standard output'},
     ('C19', 'internal:AttributeError'): {'site': LINKATTR,
         'what': "AttributeError: 'NoneType' object has no attribute 'get_attributes' from constructors / to_string / attribute access of every element whose type uses link-attributes (link, bookmark?, opus, part-link, instrument-link, ...)"},
     ('C19', 'internal:IndexError'): {'site': 'XMLChildContainer.add_element: `same_name_leaves[forward]` and `selected_same_name_leaves_max_not_reached[0]` index lists that may be empty / shorter after duplication or re-homing',
